@@ -19,6 +19,7 @@ from .. import build, compile_probe
 from ..oracle import expand_decl
 
 SPEC = ('mirsym.checks.macro_level', 'MacroCollisionCheck')
+WORLD = 'macros'        # runner: only the proc-macro crate is needed; a device crate that no longer compiles must not hide the verdict
 
 BUILTIN = {'ErrorCommands': ['SYSTem:ERRor:[NEXT]?', 'SYSTem:ERRor:COUNt?'], 'StandardCommands': ['SYSTem:VERSion?']}
 
@@ -70,10 +71,6 @@ def plan(tier):
 def check(run):
     pl = plan(run.tier)
     cov = run.evidence['coverage']
-    try:
-        run.paths = build.ensure(log=run.log, macros=True)
-    except build.BuildError as e:
-        raise Inconclusive('MIR dump of microscpi-macros failed: ' + str(e))
     from ..checks import macro_level as M
     try:
         ex = M.macro_world(run.paths)
